@@ -694,6 +694,11 @@ pub enum OpKind {
   /// call to the *clone*, run `then` on the clone. The original is untouched
   /// and must keep answering as before. (No-op on other source types.)
   CloneEditObserve { call: ReplCall, then: Box<OpKind> },
+  /// render the value with `{:?}` into a formatter sink that fails once
+  /// `limit` bytes were accepted (`None`: never). A disturber: its answer is
+  /// not judged (Debug output may legitimately show cache state), only what
+  /// it leaves behind.
+  DebugFmt { limit: Option<u32> },
 }
 
 #[derive(Clone, Debug, Serialize, Deserialize, PartialEq, Eq, Hash)]
@@ -722,6 +727,7 @@ impl OpKind {
       OpKind::EqClone => "eq_clone".into(),
       OpKind::Lookup { .. } => "lookup".into(),
       OpKind::CloneEditObserve { then, .. } => format!("clone>edit>{}", then.label()),
+      OpKind::DebugFmt { limit } => format!("debug_fmt({:?})", limit),
     }
   }
   pub fn class(&self) -> &'static str {
@@ -739,6 +745,7 @@ impl OpKind {
       OpKind::EqClone => "eq",
       OpKind::Lookup { .. } => "lookup",
       OpKind::CloneEditObserve { .. } => "clone_edit",
+      OpKind::DebugFmt { .. } => "debug",
     }
   }
 }
